@@ -1723,6 +1723,200 @@ def _guard_h(ctx, site, key, h, fn):
                       found_input=True)
 
 
+# ---- state form x purity x normalize_output: full product ----------------
+def _sf_states(rng, N, kind):
+    """(form, purity, Qobj, numpy initial data in the form the solver returns)"""
+    import qutip
+    v = np.array([complex(rng.gauss(0, 1), rng.gauss(0, 1)) for _ in range(N)])
+    v = v / np.linalg.norm(v)
+    w = np.array([complex(rng.gauss(0, 1), rng.gauss(0, 1)) for _ in range(N)])
+    w = w / np.linalg.norm(w)
+    pure = np.outer(v, v.conj())
+    mixed = 0.6 * pure + 0.4 * np.outer(w, w.conj())
+    out = []
+    if kind == "se":
+        out.append(("ket", "pure", qutip.Qobj(v.reshape(N, 1))))
+        out.append(("ket", "non-normalised", qutip.Qobj(1.7 * v.reshape(N, 1))))
+        out.append(("oper", "unitary", qutip.qeye(N)))
+        out.append(("oper", "non-normalised", qutip.Qobj(0.5 * np.eye(N) + 0.1 * pure)))
+    else:
+        out.append(("ket", "pure", qutip.Qobj(v.reshape(N, 1))))
+        out.append(("ket", "non-normalised", qutip.Qobj(1.7 * v.reshape(N, 1))))
+        for nm, r in (("pure", pure), ("mixed", mixed), ("non-normalised", 1.7 * mixed)):
+            out.append(("dm", nm, qutip.Qobj(r)))
+            out.append(("operket", nm, qutip.operator_to_vector(qutip.Qobj(r))))
+        out.append(("super", "identity", qutip.to_super(qutip.qeye(N))))
+        out.append(("super", "non-normalised", 0.5 * qutip.to_super(qutip.qeye(N))))
+    return out
+
+
+NORM_OPTS = ["default", True, False]
+
+
+def check_stateform(sysd, kind, method, form, purity, state, norm_opt):
+    """Exact evolution preserves norm / trace, so whatever normalize_output is,
+    every stored state must be expm applied to the initial data, in the form
+    the state was given (ket -> density matrix under a master equation)."""
+    import qutip
+    import scipy.linalg as sl
+    N = sysd["N"]
+    tl = sysd["tlist"]
+    opts = _opts(method, {"store_states": True})
+    del opts["normalize_output"]
+    if norm_opt != "default":
+        opts["normalize_output"] = norm_opt
+    Hm = sysd["H"]
+    if kind == "se":
+        res = qutip.sesolve(qutip.Qobj(Hm), state, tl, options=opts)
+
+        def exact(t):
+            return sl.expm(-1j * Hm * (t - tl[0])) @ state.full()
+    else:
+        I = np.eye(N)
+        L = -1j * (np.kron(I, Hm) - np.kron(Hm.T, I))
+        for c in sysd["cops"]:
+            cd = c.conj().T @ c
+            L = L + np.kron(c.conj(), c) - 0.5 * np.kron(I, cd) - 0.5 * np.kron(cd.T, I)
+        res = qutip.mesolve(qutip.Qobj(Hm), state, tl, c_ops=[qutip.Qobj(c) for c in sysd["cops"]],
+                            options=opts)
+        s0 = state.full()
+        if form == "ket":
+            s0 = s0 @ s0.conj().T
+
+        def exact(t):
+            P = sl.expm(L * (t - tl[0]))
+            if form == "super":
+                return P @ s0
+            if form == "operket":
+                return P @ s0
+            return (P @ s0.reshape(-1, 1, order="F")).reshape(N, N, order="F")
+    bad = []
+    for k, t in enumerate(tl):
+        ref = exact(t)
+        got = res.states[k].full()
+        if got.shape != ref.shape:
+            bad.append(("state-shape", "stored state has shape %s, expected %s" % (got.shape, ref.shape)))
+            break
+        err = np.linalg.norm(got - ref)
+        if not err <= _htol(method, False, ref) * (4 if method in ("adams", "bdf", "lsoda") else 1):
+            tr = ""
+            if kind == "me" and form in ("dm", "ket", "operket"):
+                g = got if form != "operket" else got.reshape(N, N, order="F")
+                tr = "; trace %.6f (initial %.6f)" % (np.trace(g).real, np.trace(
+                    s0 if form != "operket" else s0.reshape(N, N, order="F")).real)
+            bad.append(("state-vs-expm",
+                        "%s, method %s, initial state %s/%s, normalize_output=%s: stored state %d (t=%g) "
+                        "differs from expm by %.2e%s"
+                        % ("sesolve" if kind == "se" else "mesolve", method, form, purity, norm_opt,
+                           k, t, err, tr)))
+            break
+    return bad
+
+
+def run_stateform_oracle(ctx, rng, nsys):
+    n = 0
+    for _ in range(nsys):
+        for kind, methods in (("se", SE_METHODS), ("me", ME_METHODS)):
+            sysd = gen_system(rng, rng.choice([2, 3]))
+            sysd["cops"] = [c for c in sysd["cops"]] or [np.triu(np.ones((sysd["N"],) * 2), 1) / 2]
+            if all(np.allclose(c, 0) for c in sysd["cops"]):
+                sysd["cops"] = [np.triu(np.ones((sysd["N"],) * 2), 1) / 2]
+            states = _sf_states(rng, sysd["N"], kind)
+            for method in methods:
+                for form, purity, st in states:
+                    if method == "krylov" and form != "ket":
+                        continue
+                    for no in NORM_OPTS:
+                        key = [method, form, purity, "normalize_output=%s" % no]
+                        try:
+                            bad = check_stateform(sysd, kind, method, form, purity, st, no)
+                        except Exception as e:      # noqa
+                            bad = [("raises", "%s: %s" % (type(e).__name__, str(e)[:300]))]
+                        n += 1
+                        ctx.count_case(("stateform", kind, tuple(key), json.dumps(sys_to_json(sysd), sort_keys=True)),
+                                       nontrivial=True)
+                        for sig, what in bad:
+                            ctx.violation("oracle:stateform:%s" % ("sesolve" if kind == "se" else "mesolve"),
+                                          key + [sig], what,
+                                          {"kind": "stateform", "solver": kind, "method": method, "form": form,
+                                           "purity": purity, "normalize_output": no,
+                                           "state": [[[float(x.real), float(x.imag)] for x in r] for r in st.full()],
+                                           "state_dims": st.dims, "system": sys_to_json(sysd)},
+                                          found_input=True)
+    ctx.cov["input_distribution"]["stateform_runs"] = {
+        "runs": n, "forms": ["ket", "dm", "operket", "oper", "super"],
+        "purity": ["pure", "mixed", "non-normalised"], "normalize_output": [str(x) for x in NORM_OPTS]}
+    ctx.log("state-form oracle: %d runs (method x state form x purity x normalize_output)" % n)
+
+
+def run_prepare_corr(ctx, rng, nsys):
+    """The normalisation decision of the real Solver._prepare_state against
+    Model/C10_prepare.v over the product solver x state form x purity x option;
+    the attributes fed to the model are read off the state independently
+    (numpy norm / trace, Qobj.type, dims)."""
+    import qutip
+    from qutip.solver.sesolve import SESolver
+    from qutip.solver.mesolve import MESolver
+    rows, exprs = [], []
+    for _ in range(nsys):
+        N = rng.choice([2, 3])
+        H = qutip.Qobj(_herm(rng, N, 2))
+        c = qutip.Qobj(np.triu(np.ones((N, N)), 1))
+        for kind in ("se", "me", "me_liouv"):
+            for opt in (True, False, "default"):
+                o = {} if opt == "default" else {"normalize_output": opt}
+                S = (SESolver(H, options=o) if kind == "se" else
+                     MESolver(H, [c], options=o) if kind == "me" else
+                     MESolver(qutip.liouvillian(H, [c]), options=o))
+                eff_opt = True if opt == "default" else opt      # documented default: True
+                for form, purity, st in _sf_states(rng, N, "se" if kind == "se" else "me"):
+                    try:
+                        S._prepare_state(st)
+                    except Exception as e:          # noqa
+                        ctx.violation("oracle:Solver._prepare_state", [kind, form, "raises"],
+                                      "state form %s rejected by %s: %s" % (form, kind, e),
+                                      {"kind": "prepare_corr"})
+                        continue
+                    s2 = qutip.ket2dm(st) if (kind != "se" and st.type == "ket") else st
+                    arr = s2.full()
+                    fm = {"ket": "FKet", "oper": "FOper", "operator-ket": "FOperKet",
+                          "super": "FSuper"}.get(s2.type, "FOther")
+                    square = arr.shape[0] == arr.shape[1] and s2.dims[0] == s2.dims[1]
+                    dims_match = (S.rhs.dims[1] == s2.dims)
+                    col = arr.shape[1] == 1
+                    l2 = abs(np.linalg.norm(arr) - 1) <= 1e-12
+                    tr = bool(square and abs(np.trace(arr) - 1) <= 1e-12)
+                    rows.append((kind, opt, form, purity, bool(S._normalize_output)))
+                    exprs.append("(wf %s (mk_pstate %s %s %s %s %s %s), normalize_output %s "
+                                 "(mk_pstate %s %s %s %s %s %s))" % (
+                                     vlib.cbool(kind != "se"), fm, vlib.cbool(square), vlib.cbool(dims_match),
+                                     vlib.cbool(col), vlib.cbool(l2), vlib.cbool(tr), vlib.cbool(eff_opt),
+                                     fm, vlib.cbool(square), vlib.cbool(dims_match), vlib.cbool(col),
+                                     vlib.cbool(l2), vlib.cbool(tr)))
+    hdr = "From Coq Require Import Bool.\nFrom QV Require Import Model.C10_prepare.\n"
+    try:
+        vals = vlib.coq_eval_values("cases_C10n", hdr, exprs, chunk=400)
+    except RuntimeError as e:
+        ctx.violation("corr:C10:prepare-model-eval", "coqc", "prepare model evaluation failed",
+                      {"log": str(e)}, found_input=False)
+        return
+    for (kind, opt, form, purity, got), val in zip(rows, vals):
+        wf, model = vlib.parse_coq_value(val)
+        ctx.count_case(("prepare", kind, str(opt), form, purity), nontrivial=True)
+        ctx.cov["traces_validated_against_impl"] += 1
+        if not wf:
+            ctx.violation("corr:Solver._prepare_state", [kind, form, "attributes-not-well-formed"],
+                          "state form %s under %s has attributes outside the modelled combinations"
+                          % (form, kind), {"kind": "prepare_corr"}, found_input=True)
+        elif model != got:
+            ctx.violation("corr:Solver._prepare_state", [kind, form, purity, "normalize-decision"],
+                          "Solver._prepare_state decides normalize_output=%s for a %s %s state under %s "
+                          "(option %s); the modelled rule says %s" % (got, purity, form, kind, opt, model),
+                          {"kind": "prepare_corr", "solver": kind, "form": form, "purity": purity,
+                           "option": str(opt)}, found_input=True)
+    ctx.cov["input_distribution"]["prepare_decision_cases"] = len(rows)
+
+
 # ---- time scales and non-uniform time lists -----------------------------
 SCALES = [1e-9, 1e-6, 1e-3, 1.0, 1e3, 1e6]
 
@@ -2044,9 +2238,11 @@ def run(ctx):
 
     # the kernel / packing / matrix theorems: coqc, and coqchk in the thorough tier
     vlib.standard_proof_step(ctx, ["Props/C10.vo", "Props/C10_mx.vo", "Props/C10_floquet.vo",
-                                   "Props/C10_integrators.vo", "Props/C10_floquet_mx.vo"],
+                                   "Props/C10_integrators.vo", "Props/C10_floquet_mx.vo",
+                                   "Props/C10_prepare.vo"],
                              ["Props/C10.v", "Props/C10_mx.v", "Props/C10_floquet.v",
-                              "Props/C10_integrators.v", "Props/C10_floquet_mx.v"], search)
+                              "Props/C10_integrators.v", "Props/C10_floquet_mx.v",
+                              "Props/C10_prepare.v"], search)
     if tabs is not None:
         # the computed tableau facts are evaluated by the kernel's VM (about 6
         # minutes of vm_compute for the 2056 plane trees of order <= 9 on 26
@@ -2083,6 +2279,8 @@ def run(ctx):
     krylov_identity_witness(ctx)
     run_history_oracle(ctx, rng, 1 if ctx.quick else 6)
     run_timescale_oracle(ctx, rng, 1 if ctx.quick else 5)
+    run_prepare_corr(ctx, rng, 1 if ctx.quick else 4)
+    run_stateform_oracle(ctx, rng, 1 if ctx.quick else 4)
     ctx.cov["explanation"] = (
         "Proved (all inputs): the RK kernel commutes with linear maps between state spaces "
         "(route agreement step by step), a step on y'=Ly is the kernel's own symbolic polynomial "
@@ -2141,6 +2339,15 @@ def replay(ctx, payload):
                 sg = payload["signature"]
                 ctx.violation(payload["site"], (sg[:-1] if isinstance(sg, list) else [d["method"]]) + [sig],
                               what, d)
+    elif kind == "stateform":
+        import qutip
+        sysd = sys_from_json(d["system"])
+        st = qutip.Qobj(np.array([[complex(x[0], x[1]) for x in r] for r in d["state"]]), dims=d["state_dims"])
+        no = d["normalize_output"]
+        for sig, what in check_stateform(sysd, d["solver"], d["method"], d["form"], d["purity"], st, no):
+            ctx.violation(payload["site"], payload["signature"][:-1] + [sig], what, d)
+    elif kind == "prepare_corr":
+        run_prepare_corr(ctx, random.Random(payload.get("seed", 0)), 2)
     elif kind == "timescale":
         c = ts_from_json(d["case"])
         for sig, what in check_timescale(c, d["method"], d["scale"]):
